@@ -12,6 +12,7 @@ import PolyVerif.Lemmas.MeshAppend
 import PolyVerif.Lemmas.MeshWeld
 import PolyVerif.Lemmas.MeshAllRef
 import PolyVerif.Lemmas.MeshSplit
+import PolyVerif.Lemmas.MeshWeldFull
 import PolyVerif.Lemmas.MeshTransformsWF
 
 namespace PolyVerif.C03
@@ -129,13 +130,13 @@ theorem weld_survivors (key : α → K) (d : List α) (t : Nat × Nat × Nat) {x
     (weldTri key d (firsts key d) t).isSome ↔ (key x ≠ key y ∧ key x ≠ key z ∧ key y ≠ key z) :=
   weldTri_isSome_iff key d t hx hy hz
 
-/-- The full contract in one algorithm-independent predicate (evaluated by the oracle `c03.holds.weld_spec`
-    on every implementation output). NOT proved as a whole: the three theorems above give its content
-    (corners = representative's, representative = first of class with the same key, survivors = distinct
-    keys); the identification `weldRepIdx = weldReindex` and `AllReferenced` are the unproved remainder. -/
-def weld_spec_full : Prop :=
-  ∀ (α K : Type) [DecidableEq α] [DecidableEq K] (m m' : MeshVal α) (k : AttrKey) (key : α → K),
-    WF m → m.weld k key = some m' → WeldSpec k key m m'
+/-- **The whole weld contract**, algorithm-independent (`WeldSpec`, the predicate the oracle
+    `c03.holds.weld_spec` evaluates on every implementation output): the surviving triangles are exactly
+    those with three pairwise distinct keys, in order; every surviving corner carries the attribute
+    tuple of the first vertex of its key class; every vertex of the result is referenced; materials
+    are cleared; topology kept. For every key function and payload type. -/
+theorem weld_spec [DecidableEq α] {m m' : MeshVal α} (h : WF m) {k : AttrKey} {key : α → K}
+    (hw : m.weld k key = some m') : WeldSpec k key m m' := MeshVal.weld_spec h hw
 
 example : ∃ m', sample.weld ⟨3, "Position"⟩ (· % 3) = some m' ∧ WeldSpec ⟨3, "Position"⟩ (· % 3) sample m' :=
   ⟨_, rfl, by decide⟩
